@@ -42,6 +42,7 @@ func init() {
 }
 
 func c14r1(c *core.Ctx) {
+	accessoryComposition(c)
 	p := c.P
 	allowed := map[string]map[string]bool{
 		tAccessory + ".ID": {"accessory.New": true, "(*accessory.Container).AddAccessory": true},
